@@ -35,7 +35,9 @@ def rand_body(rng, maxlen=8, tricky=True):
     out = []
     atoms = [('a', [97]), ('Z', [90]), (' ', [32]), ('0', [48]), ('%', [37]), ('#', [35]), ('@', [64]), ('@1@', [64, 49, 64]),
              ('//', [47, 47]), ('/*', [47, 42]), ('*/', [42, 47]), ('FOO', [70, 79, 79]), ('N', [78]), (';', [59]), ("'", [39]),
-             ('#define', list(b'#define')), ('{', [123]), (',', [44])]
+             ('#define', list(b'#define')), ('{', [123]), (',', [44]),
+             # characters of 2, 3 and 4 bytes: the bytes of the source text are stored as they are, next to escapes too
+             ('\u00e9', [0xc3, 0xa9]), ('\u00f1', [0xc3, 0xb1]), ('\u20ac', [0xe2, 0x82, 0xac]), ('\U0001f600', [0xf0, 0x9f, 0x98, 0x80])]
     for _ in range(rng.randrange(0, maxlen)):
         if rng.random() < 0.3:
             e = rng.choice(list(C_ESC.keys()))
@@ -218,7 +220,8 @@ def run(ctx):
             viol.append({'why': 'character constants compile to other codes', 'expected': exp['@chars'], 'got': imms, 'program': srcs[pid]})
         asm_lines = [l[2] for f in r['funcs'] if f['name'] == 'main' for l in f['gen'] if l[0] == 'N']
         dec_jobs['%s/asm' % pid] = pieces['@asm']
-        want_asm = bytes(exp['@asm']).decode('latin1')
+        # (the dump carries the line as text: the expected bytes are read as UTF-8 like the source)
+        want_asm = bytes(exp['@asm']).decode('utf-8', 'replace')
         if not asm_lines or asm_lines[-1].rstrip('\x00') != want_asm.rstrip('\x00'):
             viol.append({'why': 'asm() text differs from the decoded literal', 'expected': want_asm, 'got': asm_lines, 'program': srcs[pid]})
         expect[pid] = (exp, pieces, stored, got)
